@@ -382,7 +382,7 @@ def r5(ctx):
         rets = [ev for ev in f.returns() if ev.e is not None and cval(unwrap(ev.e)) != 0]
         ok = bool(rets)
         for r in rets:
-            v = estr(r.e)
+            v = estr(unwrap(r.e))
             refs = [ev for ev in f.calls('qb_ipcs_connection_ref') if _arg_is(ev, v)]
             ok = ok and any(f.ev_dominates(x, r) for x in refs)
         ctx.check('R5', name, ok, f, '%s references the connection it returns' % name, '%s hands out a connection without taking a reference' % name)
